@@ -366,10 +366,10 @@ H("C15", "builder", "c15_add_parent_both_present", mem="medium", tq=900, args=FS
 H("C15", "builder", "c15_add_parent_child_absent", mem="medium", tq=900, args=FS, bounds="parent present, child id absent")
 H("C15", "builder", "c15_add_parent_parent_absent", mem="medium", tq=900, args=FS, bounds="parent id absent, child present")
 H("C15", "builder", "c15_add_parent_both_absent", mem="medium", tq=900, args=FS, bounds="both ids absent")
-H("C15", "builder", "c15_annotate_gene_present", mem="heavy", tq=1200, args=FS, bounds="annotate_gene on a present term, empty maps")
-H("C15", "builder", "c15_annotate_gene_absent", mem="heavy", tq=1200, args=FS, bounds="annotate_gene on an absent term id")
-H("C15", "builder", "c15_annotate_omim_absent", mem="heavy", tq=1200, args=FS, bounds="annotate_omim_disease on an absent term id")
-H("C15", "builder", "c15_annotate_orpha_absent", mem="heavy", tq=1200, args=FS, bounds="annotate_orpha_disease on an absent term id")
+H("C15", "builder", "c15_annotate_gene_present", mem="heavy", tq=1500, args=FS, bounds="annotate_gene on a present term, empty maps")
+H("C15", "builder", "c15_annotate_gene_absent", tier="thorough", mem="heavy", tt=3600, deep=True, args=FS, bounds="annotate_gene on an absent term id")
+H("C15", "builder", "c15_annotate_omim_absent", tier="thorough", mem="heavy", tt=3600, deep=True, args=FS, bounds="annotate_omim_disease on an absent term id")
+H("C15", "builder", "c15_annotate_orpha_absent", tier="thorough", mem="heavy", tt=3600, deep=True, args=FS, bounds="annotate_orpha_disease on an absent term id")
 H("C15", "builder", "c15_annotate_orpha_present", tier="thorough", mem="heavy", tt=3600, args=FS, bounds="annotate_orpha_disease on a present term")
 H("C15", "builder", "c15_twin_must_fail", expect="fail", args=FS)
 
